@@ -126,7 +126,9 @@ pub fn range_spec(limits: Option<(Option<LimitVal>, Option<LimitVal>)>, ty: &RTy
         let num = |l: &LimitVal| -> Option<f64> {
             match (l, ty) {
                 (LimitVal::SI(v), RType::Scaled { scale, offset, .. }) => Some(*v as f64 * scale.0 + offset.0),
-                (LimitVal::SI(_), _) => None,
+                // the units of an attribute that is no scaled integer are scale 1 and offset 0 (as for limit elements
+                // in a file, defect 54): the raw number is the value
+                (LimitVal::SI(v), _) => Some(*v as f64),
                 (other, _) => lim_f64(other).map(|(_, v)| v),
             }
         };
